@@ -40,7 +40,7 @@ static void sh_kinds(const Sh& x, std::set<int>& k) { k.insert(x.kind); for (aut
 
 struct Gen {
   vf::Rng& r; bool with_nan; bool with_ifsym;
-  int nfun = 4;
+  int nfun = 6;
   double constant() {
     if (with_nan && r.chance(1, 25)) {
       if (r.chance(1, 2)) return std::numeric_limits<double>::quiet_NaN();
@@ -123,6 +123,9 @@ struct Mat {
     funcs.push_back(f.AddFunction("g", -1, func::SYMBOLIC));
     funcs.push_back(f.AddFunction("f2", 2));
     funcs.push_back(f.AddFunction("", 0));
+    // distinct functions that share a name (same and different type): identity, not the name, distinguishes calls
+    funcs.push_back(f.AddFunction("g", -1));
+    funcs.push_back(f.AddFunction("f", 2));
   }
   Expr any(const Sh& s) {
     if (s.kind == ex::STRING) return f.MakeStringLiteral(fmt::StringRef(s.s.data(), s.s.size()));
